@@ -9,9 +9,6 @@ package main
 // quantity, or the result of a helper all of whose returns are bounded.
 
 import (
-	"go/token"
-	"go/types"
-
 	"golang.org/x/tools/go/ssa"
 )
 
@@ -24,64 +21,6 @@ type taintAn struct {
 	tainted     map[ssa.Value]bool
 	done        map[*ssa.Function]bool
 	funcs       []*ssa.Function
-}
-
-func isBinaryRead(c *ssa.CallCommon) bool {
-	f := c.StaticCallee()
-	return f != nil && f.Pkg != nil && f.Pkg.Pkg.Path() == "encoding/binary" && f.Name() == "Read"
-}
-
-func newTaint(p *Prog, funcs []*ssa.Function) *taintAn {
-	t := &taintAn{p: p, inputAllocs: map[*ssa.Function]map[ssa.Value]bool{}, retInput: map[*ssa.Function][]bool{},
-		retBounded: map[*ssa.Function][]int8{}, tainted: map[ssa.Value]bool{}, done: map[*ssa.Function]bool{}, funcs: funcs}
-	for _, f := range funcs {
-		t.inputAllocs[f] = map[ssa.Value]bool{}
-		for _, b := range f.Blocks {
-			for _, in := range b.Instrs {
-				call, ok := in.(ssa.CallInstruction)
-				if !ok || !isBinaryRead(call.Common()) || len(call.Common().Args) < 3 {
-					continue
-				}
-				arg := call.Common().Args[2]
-				if mi, ok := arg.(*ssa.MakeInterface); ok {
-					arg = mi.X
-				}
-				t.inputAllocs[f][rootAddr(arg)] = true
-			}
-		}
-	}
-	// fixpoint over result summaries
-	for changed := true; changed; {
-		changed = false
-		t.tainted = map[ssa.Value]bool{}
-		for _, f := range funcs {
-			t.propagate(f)
-			n := 0
-			if f.Signature.Results() != nil {
-				n = f.Signature.Results().Len()
-			}
-			cur := make([]bool, n)
-			for _, b := range f.Blocks {
-				for _, in := range b.Instrs {
-					if r, ok := in.(*ssa.Return); ok {
-						for i, v := range r.Results {
-							if i < n && t.tainted[v] {
-								cur[i] = true
-							}
-						}
-					}
-				}
-			}
-			old := t.retInput[f]
-			for i := range cur {
-				if i >= len(old) || old[i] != cur[i] {
-					changed = true
-				}
-			}
-			t.retInput[f] = cur
-		}
-	}
-	return t
 }
 
 // rootAddr strips FieldAddr/IndexAddr to the underlying allocation or pointer.
@@ -102,359 +41,4 @@ func rootAddr(v ssa.Value) ssa.Value {
 			return v
 		}
 	}
-}
-
-// propagate marks input-derived values in f (forward, to a fixpoint).
-func (t *taintAn) propagate(f *ssa.Function) {
-	allocs := t.inputAllocs[f]
-	for changed := true; changed; {
-		changed = false
-		mark := func(v ssa.Value) {
-			if !t.tainted[v] {
-				t.tainted[v] = true
-				changed = true
-			}
-		}
-		for _, b := range f.Blocks {
-			for _, in := range b.Instrs {
-				v, ok := in.(ssa.Value)
-				if !ok {
-					continue
-				}
-				switch x := in.(type) {
-				case *ssa.UnOp:
-					if x.Op == token.MUL {
-						if allocs[rootAddr(x.X)] {
-							mark(v)
-						}
-					} else if t.tainted[x.X] {
-						mark(v)
-					}
-				case *ssa.Convert:
-					if t.tainted[x.X] {
-						mark(v)
-					}
-				case *ssa.ChangeType:
-					if t.tainted[x.X] {
-						mark(v)
-					}
-				case *ssa.BinOp:
-					if t.tainted[x.X] || t.tainted[x.Y] {
-						mark(v)
-					}
-				case *ssa.Phi:
-					for _, e := range x.Edges {
-						if t.tainted[e] {
-							mark(v)
-						}
-					}
-				case *ssa.Extract:
-					if call, ok := x.Tuple.(*ssa.Call); ok {
-						if g := call.Call.StaticCallee(); g != nil {
-							if ri := t.retInput[g]; x.Index < len(ri) && ri[x.Index] {
-								mark(v)
-							}
-							if t.resultFromTaintedArg(call, g) {
-								mark(v)
-							}
-						}
-					}
-				case *ssa.Call:
-					if g := x.Call.StaticCallee(); g != nil {
-						if ri := t.retInput[g]; len(ri) == 1 && ri[0] {
-							mark(v)
-						}
-						if t.resultFromTaintedArg(x, g) {
-							mark(v)
-						}
-					} else if bi, ok := x.Call.Value.(*ssa.Builtin); ok && (bi.Name() == "min" || bi.Name() == "max") {
-						for _, a := range x.Call.Args {
-							if t.tainted[a] {
-								mark(v)
-							}
-						}
-					}
-				}
-			}
-		}
-	}
-}
-
-// resultFromTaintedArg: a numeric result of a repo helper called with an
-// input-derived numeric argument is treated as input-derived.
-func (t *taintAn) resultFromTaintedArg(call *ssa.Call, g *ssa.Function) bool {
-	if g.Pkg == nil || !t.p.IsRepoPkg(g.Pkg.Pkg) {
-		return false
-	}
-	for _, a := range call.Call.Args {
-		if t.tainted[a] {
-			if b, ok := a.Type().Underlying().(*types.Basic); ok && b.Info()&types.IsInteger != 0 {
-				return true
-			}
-		}
-	}
-	return false
-}
-
-func stripConv(v ssa.Value) ssa.Value {
-	for {
-		switch x := v.(type) {
-		case *ssa.Convert:
-			v = x.X
-		case *ssa.ChangeType:
-			v = x.X
-		default:
-			return v
-		}
-	}
-}
-
-// sameValue: identical SSA value, or two loads of the same allocation (go/ssa
-// performs no CSE; the allocation is written once, by binary.Read, before any load).
-func sameValue(a, b ssa.Value) bool {
-	a, b = stripConv(a), stripConv(b)
-	if a == b {
-		return true
-	}
-	la, ok1 := a.(*ssa.UnOp)
-	lb, ok2 := b.(*ssa.UnOp)
-	if ok1 && ok2 && la.Op == token.MUL && lb.Op == token.MUL {
-		if al, ok := la.X.(*ssa.Alloc); ok && la.X == lb.X {
-			return singleWriter(al)
-		}
-	}
-	return false
-}
-
-// singleWriter: the alloc is stored to at most once (or only by one call receiving its address).
-func singleWriter(al *ssa.Alloc) bool {
-	writes := 0
-	for _, r := range *al.Referrers() {
-		switch x := r.(type) {
-		case *ssa.Store:
-			if x.Addr == al {
-				writes++
-			}
-		case *ssa.MakeInterface:
-			writes++
-		case *ssa.Call:
-			writes++
-		}
-	}
-	return writes <= 1
-}
-
-// bounded: is v bounded at the point where it is used in block at?
-func (t *taintAn) bounded(v ssa.Value, at *ssa.BasicBlock, paramsTainted bool, depth int) bool {
-	if depth > 12 {
-		return false
-	}
-	if !paramsTainted && !t.tainted[v] {
-		return true
-	}
-	switch x := v.(type) {
-	case *ssa.Const:
-		return true
-	case *ssa.Convert:
-		return t.bounded(x.X, at, paramsTainted, depth+1)
-	case *ssa.ChangeType:
-		return t.bounded(x.X, at, paramsTainted, depth+1)
-	case *ssa.Phi:
-		for i, e := range x.Edges {
-			pred := x.Block().Preds[i]
-			if t.bounded(e, pred, paramsTainted, depth+1) || t.edgeGuarded(e, pred, x.Block(), paramsTainted, depth+1) {
-				continue
-			}
-			return false
-		}
-		return true
-	case *ssa.BinOp:
-		switch x.Op {
-		case token.REM, token.AND:
-			if t.bounded(x.Y, at, paramsTainted, depth+1) {
-				return true
-			}
-		case token.QUO, token.SHR, token.SUB:
-			// no larger than the left operand (unsigned / non-negative right)
-			return t.bounded(x.X, at, paramsTainted, depth+1)
-		}
-		return t.bounded(x.X, at, paramsTainted, depth+1) && t.bounded(x.Y, at, paramsTainted, depth+1)
-	case *ssa.Call:
-		if bi, ok := x.Call.Value.(*ssa.Builtin); ok {
-			switch bi.Name() {
-			case "len", "cap":
-				return true // size of data that already exists
-			case "min":
-				for _, a := range x.Call.Args {
-					if t.bounded(a, at, paramsTainted, depth+1) {
-						return true
-					}
-				}
-				return false
-			}
-		}
-		if g := x.Call.StaticCallee(); g != nil && g.Pkg != nil && t.p.IsRepoPkg(g.Pkg.Pkg) {
-			return t.resultBounded(g, 0)
-		}
-	case *ssa.Extract:
-		if call, ok := x.Tuple.(*ssa.Call); ok {
-			if g := call.Call.StaticCallee(); g != nil && g.Pkg != nil && t.p.IsRepoPkg(g.Pkg.Pkg) {
-				return t.resultBounded(g, x.Index)
-			}
-		}
-	}
-	isLeafTaint := t.tainted[v]
-	if _, isParam := v.(*ssa.Parameter); isParam && paramsTainted {
-		isLeafTaint = true
-	}
-	if !isLeafTaint {
-		return true
-	}
-	return t.guarded(v, at, paramsTainted, depth)
-}
-
-// guarded: a dominating comparison bounds v from above on the way to block at.
-func (t *taintAn) guarded(v ssa.Value, at *ssa.BasicBlock, paramsTainted bool, depth int) bool {
-	if at == nil {
-		return false
-	}
-	f := at.Parent()
-	for _, d := range f.Blocks {
-		if len(d.Instrs) == 0 {
-			continue
-		}
-		ifi, ok := d.Instrs[len(d.Instrs)-1].(*ssa.If)
-		if !ok {
-			continue
-		}
-		cmp, ok := ifi.Cond.(*ssa.BinOp)
-		if !ok {
-			continue
-		}
-		for side := 0; side < 2; side++ {
-			a, b := cmp.X, cmp.Y
-			op := cmp.Op
-			if side == 1 {
-				a, b = b, a
-				switch op {
-				case token.LSS:
-					op = token.GTR
-				case token.GTR:
-					op = token.LSS
-				case token.LEQ:
-					op = token.GEQ
-				case token.GEQ:
-					op = token.LEQ
-				}
-			}
-			if !sameValue(a, v) {
-				continue
-			}
-			if !t.bounded(b, d, paramsTainted, depth+1) {
-				continue
-			}
-			// which successor implies a <= b (or a < b, a == b)?
-			var safe []int
-			switch op {
-			case token.LSS, token.LEQ, token.EQL:
-				safe = []int{0}
-			case token.GTR, token.GEQ, token.NEQ:
-				safe = []int{1}
-			}
-			for _, si := range safe {
-				s := d.Succs[si]
-				if len(s.Preds) == 1 && s.Dominates(at) {
-					return true
-				}
-			}
-		}
-	}
-	return false
-}
-
-// edgeGuarded: the control-flow edge pred→succ is itself the safe outcome of a
-// comparison bounding v (an if without else: the false edge goes straight to the merge block).
-func (t *taintAn) edgeGuarded(v ssa.Value, pred, succ *ssa.BasicBlock, paramsTainted bool, depth int) bool {
-	if len(pred.Instrs) == 0 {
-		return false
-	}
-	ifi, ok := pred.Instrs[len(pred.Instrs)-1].(*ssa.If)
-	if !ok {
-		return false
-	}
-	cmp, ok := ifi.Cond.(*ssa.BinOp)
-	if !ok {
-		return false
-	}
-	for side := 0; side < 2; side++ {
-		a, b := cmp.X, cmp.Y
-		op := cmp.Op
-		if side == 1 {
-			a, b = b, a
-			switch op {
-			case token.LSS:
-				op = token.GTR
-			case token.GTR:
-				op = token.LSS
-			case token.LEQ:
-				op = token.GEQ
-			case token.GEQ:
-				op = token.LEQ
-			}
-		}
-		if !sameValue(a, v) || !t.bounded(b, pred, paramsTainted, depth+1) {
-			continue
-		}
-		safe := -1
-		switch op {
-		case token.LSS, token.LEQ, token.EQL:
-			safe = 0
-		case token.GTR, token.GEQ, token.NEQ:
-			safe = 1
-		}
-		if safe >= 0 && pred.Succs[safe] == succ && pred.Succs[1-safe] != succ {
-			return true
-		}
-	}
-	return false
-}
-
-// resultBounded: every return of g yields a bounded value for result i,
-// treating g's parameters as unbounded input.
-func (t *taintAn) resultBounded(g *ssa.Function, i int) bool {
-	rb := t.retBounded[g]
-	if rb == nil {
-		n := 0
-		if g.Signature.Results() != nil {
-			n = g.Signature.Results().Len()
-		}
-		rb = make([]int8, n)
-		t.retBounded[g] = rb
-	}
-	if i >= len(rb) {
-		return false
-	}
-	switch rb[i] {
-	case 1:
-		return true
-	case 2, 3:
-		return false
-	}
-	rb[i] = 3 // in progress
-	ok := len(g.Blocks) > 0
-	for _, b := range g.Blocks {
-		for _, in := range b.Instrs {
-			if r, isRet := in.(*ssa.Return); isRet && i < len(r.Results) {
-				if !t.bounded(r.Results[i], b, true, 0) {
-					ok = false
-				}
-			}
-		}
-	}
-	if ok {
-		rb[i] = 1
-	} else {
-		rb[i] = 2
-	}
-	return ok
 }
